@@ -82,6 +82,9 @@ MUTANTS = [
     ("column bound clamped with the number of rows", "AegeanTools/BANE.py",
      "        c_max = min(data.shape[1] - 1, c + box_size[1] // 2)",
      "        c_max = min(data.shape[0] - 1, c + box_size[1] // 2)", "C06-R7"),
+    ("BANE reads the wrong plane of a 4-d image", "AegeanTools/BANE.py",
+     "                a[0].section[0, cube_index,",
+     "                a[0].section[cube_index, 0,", "C06-R8"),
 ]
 TWINS = [
     ("explicit full slice", "AegeanTools/BANE.py",
@@ -554,6 +557,8 @@ def run(ctx):
               "numpy arrays are (rows=NAXIS2, columns=NAXIS1)",
               node=shp[0] if shp else fimg.node)
     r6_precision(ctx, prog)
+    from .c20 import r5_planes
+    r5_planes(ctx, prog, rule="C06-R8")
     # ---------------------------------------------------------------- R7
     ctx.rule("C06-R7", "axis discipline of the estimator: row quantities "
              "(stripe bounds, box height, grid step along rows) and column "
